@@ -88,6 +88,25 @@ def ingroup(facts, cls, name, countfield, res):
                 res.violation(R, f, fn["qname"], "untested-positive-exit@%d" % r["l"][1], r["l"][1],
                               "a position is returned (`%s`) on a path where the queried index was never compared with anything: indices outside the group, or absent from it, are reported as found" % facts.ntext(r)[:90])
             else:
+                # a probe: the key stored at the returned position was compared with the query on this path - sound whatever led there
+                # (that the position is inside the group is rule C15.10)
+                rv = [y for y in walk(r) if y.get("k") == "DeclRefExpr" and y.get("dk") == "Var"]
+                probed = False
+                if len(rv) == 1:
+                    for c_ in conds:
+                        for part in _conjuncts(c_):
+                            pt = strip(part)
+                            if pt is not None and pt.get("k") == "BinaryOperator" and pt.get("op") == "==":
+                                sides = [strip(kids(pt)[0]), strip(kids(pt)[1])]
+                                for a_, b_ in (sides, sides[::-1]):
+                                    key_at_p = a_.get("k") in ("MemberExpr", "CXXDependentScopeMemberExpr") and a_.get("name") == "spaceIndex" and kids(a_) \
+                                        and strip(kids(a_)[0]).get("k") in ("CallExpr", "CXXMemberCallExpr") and tbf.callee_name(strip(kids(a_)[0])) == "getItem" \
+                                        and len(tbf.call_args(strip(kids(a_)[0]))) == 1 and strip(tbf.call_args(strip(kids(a_)[0]))[0]).get("did") == rv[0].get("did")
+                                    if key_at_p and b_.get("k") == "DeclRefExpr" and b_.get("did") == query["did"] and "Parent" not in name:
+                                        probed = True
+                if probed:
+                    res.instance(R, "%s::%s probed exit@%d" % (cls, name, r["l"][1]), facts.loc(r), "returns a position whose stored key was compared with the query on the same path")
+                    continue
                 verdict = arithmetic_exit(facts, cls, fn, fm, r, query, countfield, by_parent=("Parent" in name))
                 if verdict is None:
                     raise AnalysisBroken("%s::%s: an additional positive exit at line %d tests the query in a way the rule does not model; re-confirm C16.1 by reading" % (cls, name, r["l"][1]))
@@ -112,6 +131,11 @@ def ingroup(facts, cls, name, countfield, res):
     lo, hi, val = facts.ntext(sargs[0]), facts.ntext(sargs[1]), strip(sargs[2])
     lam = strip(sargs[3])
     res.instance(R, "%s::%s search" % (cls, name), facts.loc(search), "range [%s, %s) value %s" % (lo, hi, facts.ntext(sargs[2])))
+    mnar = re.match(r"^(?:std::)?min\((.*)\)$", hi)
+    if lo == "0" and mnar and val.get("did") == query["did"] and any(a_.strip().endswith("." + countfield) for a_ in re.split(r",(?![^()]*\))", mnar.group(1))):
+        # a search over a prefix of the group: positive answers stay sound (the key at the result is verified below); that nothing is missed
+        # depends on why the rest was excluded, which this rule does not model
+        raise AnalysisBroken("%s::%s: the binary search runs over [0, %s), a prefix of the group: whether an existing element can lie outside it depends on what was tested before - re-confirm by reading" % (cls, name, hi))
     if lo != "0" or not hi.endswith("." + countfield) or val.get("did") != query["did"]:
         res.violation(R, f, fn["qname"], "search-range", search["l"][1], "the search does not run over [0, %s) for the queried index (got [%s, %s) value %s)" % (countfield, lo, hi, facts.ntext(sargs[2])))
     # comparator: key(it) < value
@@ -166,7 +190,7 @@ def ingroup(facts, cls, name, countfield, res):
         res.violation(R, f, fn["qname"], "key-guard", s["l"][1], "a position is returned without verifying that the key stored at that position equals the queried index: absent indices would be reported as found")
     if key_ok and gkey is not None:
         # same key expression in the comparator and in the verification (modulo the name of the header local)
-        norm = lambda t: re.sub(r"\b\w*[Hh]eader\b", "HDR", t)
+        norm = lambda t: re.sub(r"\b\w*[Hh]eader\b", "HDR", re.sub(r"\b[\w.]+(?:\(\))?(?:\.template\s*\w+<\d+>\(\)|\.?template\w+<\d+>\(\))?\.getItem\([^()]*\)", "HDR", t))
         if norm(gkey) != norm(lkey):
             res.violation(R, f, fn["qname"], "key-agreement", lam["l"][1], "the search orders elements by `%s` but the result is verified with `%s`" % (lkey, gkey))
 
